@@ -29,6 +29,30 @@ def _die_with_parent():
     threading.Thread(target=poll, daemon=True).start()
 
 
+def process_mode(shard):
+    """Process-wide settings a user may legitimately have are a configuration like any other (cf. DEBUG logging).
+    By default every fourth shard runs with the cyclic garbage collector disabled.  VF_PROCESS_MODE=fperr (numpy raises on
+    divide / invalid / overflow) and =warnerr (warnings are errors) exist for experiments only: the harness's own
+    generators overflow on purpose, so those two are not part of the registered checks (DESIGN 0.4, round 17)."""
+    import os
+
+    mode = os.environ.get("VF_PROCESS_MODE") or ["plain", "plain", "nogc", "plain"][shard % 4]
+    if mode == "nogc":
+        import gc
+
+        gc.disable()
+    elif mode == "fperr":
+        import numpy as np
+
+        np.seterr(divide="raise", invalid="raise", over="raise")
+    elif mode == "warnerr":
+        import warnings
+
+        warnings.resetwarnings()
+        warnings.simplefilter("error")
+    return mode
+
+
 def main():
     prop, tier, seed, shard, nshards, out = sys.argv[1:7]
     seed, shard, nshards = int(seed), int(shard), int(nshards)
@@ -42,10 +66,23 @@ def main():
         os.environ["VF_LOG_DEBUG"] = "1"
     repoimport.setup()
     repoimport.quiet_logging()
+    mode = process_mode(shard)
     mod = importlib.import_module("vf.props." + prop.lower())
     rec = kit.Recorder(prop, tier, seed, shard, nshards)
-    mod.run_shard(rec, tier, seed, shard, nshards)
+    try:
+        mod.run_shard(rec, tier, seed, shard, nshards)
+    except Exception as e:
+        # a workload that trips over the consequences of a violation it has already recorded (e.g. a mask that is
+        # suddenly all-true) must not lose that record: report what was seen; without a recorded violation the shard
+        # dies as before and the run is inconclusive
+        if not rec.violations:
+            raise
+        import traceback
+
+        rec.notes.append("shard %d aborted after recording %d violation(s): %r\n%s" % (shard, len(rec.violations), e, traceback.format_exc()[-800:]))
     repoimport.check_origin()
+    rec.count("shards_in_process_mode_" + mode)
+    rec.count("shards_under_python_O" if not __debug__ else "shards_with_asserts_enabled")
     rec.count("shards_with_debug_logging" if os.environ.get("VF_LOG_DEBUG") == "1" else "shards_with_default_logging")
     with open(out, "w") as f:
         json.dump(rec.result(), f)
